@@ -224,6 +224,22 @@ plan("C19", jobs=lambda tier: [job("class", "C19", "eval", "vdev", "eval", shard
      technique="runtime monitor: direct check of generated requests + real allocator calls over an enumerated configuration grid")
 
 
+def _c18(prop, tier, seed, t0):
+    from . import memcheck
+    import sys
+    return memcheck.run(prop, tier, seed, t0, sys.modules[__name__])
+
+
+plan("C18", custom=_c18, level="exploration", min_nontrivial=100,
+     rule=("the tools are the oracle: (1) every native shard runs with exact-size metadata buffers flush against PROT_NONE guard pages (end- and "
+           "start-flush placements, zero-sized buffers point to the guard page); (2) the same sequential / invalid-buffer / free-running / token-"
+           "scheduler workloads under AddressSanitizer with exact-size heap buffers; (3) free-running and token-scheduler threads under "
+           "ThreadSanitizer; (4) Miri on reduced programs (initialisation grid incl. frames=0 and empty buffers through MetaData::alloc, short "
+           "histories with re-initialisation, invalid buffers, 2-3 threads with many seeds). distinct_nontrivial = distinct model states reached "
+           "by the native/ASan histories plus Miri programs that ran clean to the end"),
+     technique="sanitizers: guard pages + AddressSanitizer + ThreadSanitizer + Miri over the monitors' workloads")
+
+
 def _c20(prop, tier, seed, t0):
     from . import tracemon
     import sys
